@@ -83,6 +83,9 @@ def populate(pio, case, leaves_display):
             path = pio.tile_path(Pos(*p))
             if fmt == "npy":
                 np.save(path, stored)
+            elif spec.get("salt", 0) % 2 == 0:
+                # ... with toasty's own writer for image files (right after whatever tile was saved before it)
+                Image.from_array(stored).save(path, format="fits")
             else:
                 from astropy.io import fits
 
@@ -232,7 +235,7 @@ def cascade_cases(draw, tier, formats=None, want_range=False, modes=None, depth0
             spec["offset"] = draw(st.sampled_from([0, 0, -1, -50, -97, 1000, -200, -200, 500]))
             if draw(st.integers(0, 5)) == 0:
                 spec["kind"] = "constant"
-            if fmt in ("fits", "npy") and not want_range and spec.get("kind") is None and draw(st.integers(0, 9)) == 0:
+            if fmt in ("fits", "npy") and spec.get("kind") is None and draw(st.integers(0, 9 if not want_range else 7)) == 0:
                 spec["kind"] = "allnan"
             if draw(st.integers(0, 3)) == 0:
                 spec["via"] = "update2"
@@ -241,6 +244,11 @@ def cascade_cases(draw, tier, formats=None, want_range=False, modes=None, depth0
         if mode in ("I16", "I32") and draw(st.booleans()):
             spec["big"] = True
         leaves.append(spec)
+    if want_range and (depth == 0 or not any(sp.get("kind") != "allnan" for sp in leaves)):
+        # (a pyramid with no defined pixel at all has no data range and no root tile: outside this quantifier)
+        for sp in leaves:
+            if sp.get("kind") == "allnan":
+                sp.pop("kind")
     case = {"format": fmt, "mode": mode, "depth": depth, "leaves": leaves}
     # stale parent files at positions that have at least one child
     parents = sorted(set(rp.parent(p) for p in pos)) if depth else []
